@@ -364,3 +364,41 @@ def check_launch(o, spec, ray, res, tol=1e-8):
             if abs(y - yexp) > 1e-7 * (1 + abs(yexp)):
                 bad.append({'kind': 'field-angle', 'origin_y': y, 'expected': yexp})
     return bad
+
+
+def check_trace_launch(o, spec, name, n, Hy, w, recs):
+    """Optic.trace(0, Hy, w, n, name): recs = launch records [x y z L M N] of every ray.  The named sampling must deliver
+    its documented count, every aim point must lie inside the entrance pupil, and no further from the axis than
+    the unvignetted sampling point it came from (vignetting can only shrink)."""
+    import numpy as np
+    import oracles, paraxcorr
+    from optiland.distribution import create_distribution
+    bad = []
+    if spec.get('telecentric'):
+        return bad
+    d0 = create_distribution(name)
+    d0.generate_points(n, 0.0, 0.0)
+    x0, y0 = np.asarray(d0.x, dtype=float), np.asarray(d0.y, dtype=float)
+    if len(recs) != len(x0):
+        bad.append({'kind': 'trace-count', 'rays': len(recs), 'sampling_points': len(x0)})
+        return bad
+    ps = paraxcorr.psurfs(o)
+    mf = max(math.hypot(f.x, f.y) for f in o.fields.fields)
+    q = oracles.abcd_quantities(ps, spec['aperture'][0], spec['aperture'][1], spec['field_type'], mf)
+    EPL, EPD = q.get('EPL'), q.get('EPD')
+    if EPL is None or EPD is None or not (math.isfinite(EPL) and math.isfinite(EPD)) or EPD == 0:
+        return bad
+    for k, (x, y, z, L, M, N) in enumerate(recs):
+        if not all(math.isfinite(v) for v in (x, y, z, L, M, N)) or N == 0:
+            continue
+        t = (EPL - z) / N
+        px, py = (x + t * L) / (EPD / 2), (y + t * M) / (EPD / 2)
+        tol = 1e-7 * (1 + abs(t) * 1e-3)
+        if px * px + py * py > 1 + tol:
+            bad.append({'kind': 'aim-outside-pupil', 'ray': k, 'pupil_point': [px, py]})
+            break
+        if abs(px) > abs(x0[k]) + tol or abs(py) > abs(y0[k]) + tol or px * x0[k] < -tol or py * y0[k] < -tol:
+            bad.append({'kind': 'vignetting-enlarges-pupil', 'ray': k, 'pupil_point': [px, py],
+                        'unvignetted': [float(x0[k]), float(y0[k])]})
+            break
+    return bad
